@@ -4,7 +4,7 @@
    Constant, no other Extract Inductive. *)
 Require Extraction.
 Require Import ExtrOcamlBasic.
-From FV Require Import Base.Serial Session.Window Link.SenderCredit Base.Bytes Codec.Value Codec.Enc Codec.Dec Codec.Spec Frame.Transfer Lib.LengthDelimited Session.Disposition Lib.Slab Session.Ids Conn.Lifecycle.
+From FV Require Import Base.Serial Session.Window Link.SenderCredit Base.Bytes Codec.Value Codec.Enc Codec.Dec Codec.Spec Frame.Transfer Lib.LengthDelimited Session.Disposition Lib.Slab Session.Ids Conn.Lifecycle Conn.Timers.
 Extraction Language OCaml.
 Separate Extraction
   Window.run Window.step Window.begun_for_oracle
@@ -13,4 +13,5 @@ Separate Extraction
   Transfer.wire_transfer Transfer.wire_other LengthDelimited.ld_feed_all
   Disposition.dstep
   Ids.lstep Ids.ls_init Ids.cstep Ids.cn_init
-  Lifecycle.step.
+  Lifecycle.step
+  Timers.tstep Timers.tinit Timers.advertised.
